@@ -75,12 +75,19 @@ async def _scenario(seed: int) -> dict[str, Any]:
             super().__init__(*a, **kw)
             created.append(self)
             self.idx = len(created)
+            self.reached_connect = False
 
         def bind(self, addr: Any) -> None:
             if self.idx in bindfail:
-                events.append({"ev": "bindfail", "i": self.idx, "nopen": -1, "which": 0})
                 raise OSError(errno.EADDRNOTAVAIL, "Cannot assign requested address")
             # a successful bind is irrelevant for the race: do not consume real ports
+
+        def close(self) -> None:
+            was_open = self.fileno() != -1
+            super().close()
+            if was_open and not self.reached_connect:
+                # abandoned before connect (bind failed / no local address of this family): one event per such attempt
+                events.append({"ev": "bindfail", "i": self.idx, "nopen": -1, "which": 0})
 
     class SocketModuleProxy:
         def __getattr__(self, name: str) -> Any:
@@ -92,13 +99,21 @@ async def _scenario(seed: int) -> dict[str, Any]:
     class Resolver(mod.BaseAsyncDNSResolver):
         async def connect_socket(self, sock: Any, address: Any) -> None:
             i = sock.idx
+            sock.reached_connect = True
             log("start", i)
             futs[i] = loop.create_future()
             await futs[i]
 
-    # all addresses of one family: the order of attempts is the order given (interleaving by family is a no-op)
-    remote = [(socket.AF_INET, socket.SOCK_STREAM, 0, "", ("127.0.0.%d" % (k + 1), 9)) for k in range(n)]
-    local = [(socket.AF_INET, socket.SOCK_STREAM, 0, "", ("127.0.0.1", 0))] if use_local else None
+    # mixed families in a random order: the library interleaves them; attempts are identified by socket creation order
+    fams = [rng.choice([socket.AF_INET, socket.AF_INET, socket.AF_INET6]) for _ in range(n)]
+    remote = [
+        (f, socket.SOCK_STREAM, 0, "", ("127.0.0.%d" % (k + 1), 9) if f == socket.AF_INET else ("::%d" % (k + 1), 9, 0, 0))
+        for k, f in enumerate(fams)
+    ]
+    local = None
+    if use_local:
+        lf = rng.choice([[socket.AF_INET], [socket.AF_INET6], [socket.AF_INET, socket.AF_INET6], [socket.AF_INET6, socket.AF_INET]])
+        local = [(f, socket.SOCK_STREAM, 0, "", ("127.0.0.1", 0) if f == socket.AF_INET else ("::1", 0, 0, 0)) for f in lf]
     fds_before = _nfds()
     orig = mod._socket
     mod._socket = proxy  # type: ignore[assignment]
@@ -146,8 +161,17 @@ async def _scenario(seed: int) -> dict[str, Any]:
                     futs[i].set_result(None)
                 else:
                     futs[i].set_exception(ConnectionRefusedError(errno.ECONNREFUSED, "refused"))
+                if not ext_done and rng.random() < 0.25:
+                    # the caller is cancelled a few loop iterations after the completion, before the race has settled
+                    for _ in range(rng.randint(0, 4)):
+                        await asyncio.sleep(0)
+                    if not caller.done():
+                        ext_done = True
+                        events.append({"ev": "ext_cancel", "i": 0, "nopen": -1, "which": 0})
+                        caller.cancel()
                 await harness.settle()
-                log("obs")
+                if not caller.done():
+                    log("obs")
             elif c == "delay":
                 await asyncio.sleep(DELAY + 0.01)
             else:
@@ -155,7 +179,8 @@ async def _scenario(seed: int) -> dict[str, Any]:
                 events.append({"ev": "ext_cancel", "i": 0, "nopen": -1, "which": 0})
                 caller.cancel()
                 await harness.settle()
-                log("obs")
+                if not caller.done():
+                    log("obs")
         await harness.settle()
         if not caller.done():
             problems.append("the call never returned")
@@ -189,7 +214,7 @@ async def _scenario(seed: int) -> dict[str, Any]:
     final = list(events)
     if problems:
         final.append({"ev": "problem", "i": 0, "nopen": 0, "which": 0})
-    return {"n": n, "events": final, "problems": problems, "meta": f"seed={seed} n={n} bindfail={sorted(bindfail)} local={use_local}"}
+    return {"n": n, "events": final, "problems": problems, "meta": f"seed={seed} n={n} families={['v4' if f == socket.AF_INET else 'v6' for f in fams]} bindfail={sorted(bindfail)} local={None if local is None else ['v4' if x[0] == socket.AF_INET else 'v6' for x in local]}"}
 
 
 def run(chk: Check) -> None:
